@@ -75,7 +75,7 @@ def case_value_roundtrip(ctx, setting):
 
 
 # --------------------------------------------------------------------------------------------- (b)
-def build_np24(ctx, shank_of, window, K, ns_min=577, post_check=False, compress=False, delete_original=False, ns_name="ns"):
+def build_np24(ctx, shank_of, window, K, ns_min=577, post_check=False, compress=False, delete_original=False, ns_name="ns", fs_txt="30000"):
     """original NP2.4 recording with symbolic length on a fresh fake fs; returns (converter, fs, ns, nc)"""
     import neuropixel
     n = len(shank_of)
@@ -83,8 +83,8 @@ def build_np24(ctx, shank_of, window, K, ns_min=577, post_check=False, compress=
     ns = ctx.int(ns_name, ns_min, 10 ** 9)
     ov = 576
     ctx.assume(ns <= window + (K - 1) * (window - ov))
-    T = core._as_real(ns) / 30000
-    txt = np2env.np24_meta_text(n, shank_of, sglx.S(T), extra=["fileSHA1=ABCDEF", f"fileSizeBytes={sglx.S(ns * nc * 2)}"])
+    T = core._as_real(ns) / Fraction(float(fs_txt))
+    txt = np2env.np24_meta_text(n, shank_of, sglx.S(T), extra=["fileSHA1=ABCDEF", f"fileSizeBytes={sglx.S(ns * nc * 2)}"], fs_txt=fs_txt)
     F = fakefs.install(fakefs.FakeFS())
     F.add("/s/probe00/x.imec0.ap.meta", True, len(txt), [{"pos": 0, "text": txt}])
     F.add("/s/probe00/x.imec0.ap.bin", True, ns * nc * 2, np2env.raw_array(ns, nc))
@@ -121,10 +121,10 @@ def check_split_file(ctx, F, path, ns, chns, what="ap", ratio=1):
     return np2env.records_view(recs, ncols)
 
 
-def case_split(ctx, mapname, window, K):
+def case_split(ctx, mapname, window, K, fs_txt="30000"):
     import spikeglx
     shank_of = MAPS[mapname]
-    conv, F, ns, nc = build_np24(ctx, shank_of, window, K)
+    conv, F, ns, nc = build_np24(ctx, shank_of, window, K, fs_txt=fs_txt)
     status = ctx.call("process", conv.process)
     ctx.oblige("status_is_one", status == 1, detail={"status": status})
     shanks = sorted(set(shank_of))
@@ -151,7 +151,7 @@ def case_split(ctx, mapname, window, K):
         okl = ctx.oblige("meta_original_channels_count", core.eq(back.shape[0], len(chns)), detail={"got": back.shape[0]})
         if okl:
             ctx.oblige("meta_original_channels_recorded", all_([core.eq(back[i], chns[i]) for i in range(len(chns))]), detail={"expected": chns})
-        ctx.oblige("meta_duration_unchanged", core.eq(md["fileTimeSecs"] * 30000, core._as_real(ns)))
+        ctx.oblige("meta_duration_unchanged", core.eq(md["fileTimeSecs"] * Fraction(float(fs_txt)), core._as_real(ns)))
     # original untouched
     o = F.get("/s/probe00/x.imec0.ap.bin")
     ctx.oblige("original_still_there", bool(o.exists) and isinstance(o.content, LArr))
@@ -181,11 +181,11 @@ def case_chans_text_roundtrip(ctx, n):
         ctx.oblige("parsed_channel_equals_original", core.eq(back[i], cs[i]), detail={"i": i})
 
 
-def case_reconstruct(ctx, mapname, window, K):
+def case_reconstruct(ctx, mapname, window, K, fs_txt="30000"):
     import neuropixel
     import spikeglx
     shank_of = MAPS[mapname]
-    conv, F, ns, nc = build_np24(ctx, shank_of, window, K)
+    conv, F, ns, nc = build_np24(ctx, shank_of, window, K, fs_txt=fs_txt)
     conv.init_params(nwindow=window, extra="")
     ctx.call("process", conv.process)
     # move the original away, reassemble into /s/probe00
@@ -236,6 +236,10 @@ def cases(tier):
         cs.append(Case(f"chans_text_{n}", "case_chans_text_roundtrip", {"n": n}))
     for mp in (["contig", "interleaved"] if tier == "quick" else list(MAPS)):
         cs.append(Case(f"reconstruct_{mp}", "case_reconstruct", {"mapname": mp, "window": 1200, "K": 2}, timeout_s=2400))
+    # long recordings at the fractional rates SpikeGLX really reports (duration x nominal rate != sample count)
+    cs.append(Case("reconstruct_contig_fs30000.39", "case_reconstruct", {"mapname": "contig", "window": 60000, "K": 2, "fs_txt": "30000.390639481"}, timeout_s=2400))
+    cs.append(Case("reconstruct_interleaved_fs29999.76", "case_reconstruct", {"mapname": "interleaved", "window": 60000, "K": 2, "fs_txt": "29999.757983"}, timeout_s=2400))
+    cs.append(Case("split_contig_w60000_fs30000.39", "case_split", {"mapname": "contig", "window": 60000, "K": 2, "fs_txt": "30000.390639481"}, timeout_s=2400))
     return cs
 
 
@@ -265,12 +269,12 @@ import sys, tempfile, pathlib, shutil
 sys.path.insert(0, '/verif')
 from symex import sglx, np2env
 import spikeglx, neuropixel
-def make(shank_of, ns, rng="0.5", maxint=8192, data=None):
+def make(shank_of, ns, rng="0.5", maxint=8192, data=None, fs_txt="30000"):
     d = pathlib.Path(tempfile.mkdtemp()) / 's' / 'probe00'; d.mkdir(parents=True)
     n = len(shank_of); nc = n + 1
     if data is None:
         rs = np.random.default_rng(0); data = rs.integers(-32768, 32767, size=(ns, nc)).astype(np.int16)
-    txt = np2env.np24_meta_text(n, shank_of, format(ns / 30000.0, '.12f'), rng=rng, maxint=maxint, extra=['fileSHA1=ABCDEF', f'fileSizeBytes={ns * nc * 2}'])
+    txt = np2env.np24_meta_text(n, shank_of, format(ns / float(fs_txt), '.12f'), rng=rng, maxint=maxint, extra=['fileSHA1=ABCDEF', f'fileSizeBytes={ns * nc * 2}'], fs_txt=fs_txt)
     (d / 'x.imec0.ap.meta').write_text(txt); data.tofile(d / 'x.imec0.ap.bin')
     return d, data
 '''
@@ -296,7 +300,7 @@ not_reproduced()
         return common + f"""
 shank_of = {MAPS[params['mapname']]}; ns = {ns}; window = {params['window']}
 if ns > 3_000_000: not_reproduced('too long to materialise')
-d, data = make(shank_of, ns)
+d, data = make(shank_of, ns, fs_txt={params.get('fs_txt', '30000')!r})
 conv = neuropixel.NP2Converter(d / 'x.imec0.ap.bin', post_check=False, compress=False)
 conv.init_params(nwindow=window, extra='_t')
 try:
@@ -307,6 +311,7 @@ bad = []
 for s in sorted(set(shank_of)):
     chns = [i for i, x in enumerate(shank_of) if x == s] + [len(shank_of)]
     f = d.parent / f'probe00{{chr(97 + s)}}_t' / 'x.imec0.ap.bin'
+    if not f.exists(): bad.append(('no file for shank', s, sorted(p.name for p in d.parent.iterdir()))); continue
     out = np.fromfile(f, dtype=np.int16)
     if out.size != ns * len(chns): bad.append(('rows', s, out.size / len(chns), ns)); continue
     if not np.array_equal(out.reshape(ns, len(chns)), data[:, chns]): bad.append(('values', s))
@@ -338,7 +343,7 @@ not_reproduced()
         ns = m["ns"]
         return common + f"""
 shank_of = {MAPS[params['mapname']]}; ns = {ns}
-d, data = make(shank_of, ns)
+d, data = make(shank_of, ns, fs_txt={params.get('fs_txt', '30000')!r})
 conv = neuropixel.NP2Converter(d / 'x.imec0.ap.bin', post_check=False, compress=False)
 conv.init_params(nwindow={params['window']}, extra='')
 conv.process()
